@@ -82,6 +82,9 @@ pub struct Prefixes {
     pub h_tail: String,
 }
 impl Prefixes {
+    pub fn of_fam(f: &crate::cfg::Fam) -> Prefixes {
+        Prefixes { h_unit: f.0[0].clone(), h_tail: f.0[1].clone(), quote: f.0[2].clone(), ul: f.0[3].clone(), ol_tail: f.0[4].clone() }
+    }
     pub fn builtin() -> Prefixes {
         Prefixes { quote: "> ".into(), ul: "* ".into(), ol_tail: ". ".into(), h_unit: "#".into(), h_tail: " ".into() }
     }
@@ -222,7 +225,10 @@ impl Prop for C07 {
                 }
             };
             for _ in 0..(if tier == Tier::Quick { 3 } else { 6 }) {
-                let mut cfg = if r.p(60) { Cfg::plain() } else { Cfg::rich() };
+                // one case in seven under a decorator of the custom family (prefixes over ASCII, 2-byte width-1, 3-byte width-2
+                // characters): the law is about the decorator's prefixes by display width, not about the built-in strings
+                // (added after the seeded change C07-ul-indent-by-byte-length was reported by C16 only)
+                let mut cfg = if r.p(14) { Cfg::base(crate::cfg::Deco::Fam(crate::cfg::gen_fam(r, true))) } else if r.p(60) { Cfg::plain() } else { Cfg::rich() };
                 if r.p(20) {
                     cfg.pad = true;
                 }
@@ -260,7 +266,11 @@ impl Prop for C07 {
         if blocks.len() != 1 {
             return out;
         }
-        if let Some(msg) = check(&blocks[0], &c.cfg, c.width, 3) {
+        let res = match &c.cfg.deco {
+            crate::cfg::Deco::Fam(f) => check_with(&blocks[0], &c.cfg, c.width, 3, &Prefixes::of_fam(f)),
+            _ => check(&blocks[0], &c.cfg, c.width, 3),
+        };
+        if let Some(msg) = res {
             out.push(viol(msg));
         }
         out
